@@ -147,6 +147,10 @@ def load_known():
 def write_evidence(pid, tier, seed, level, coverage, wall, violations, assumptions, extra=False):
     # extra checks (conformance of spec modules that no listed property is about) keep their evidence apart
     EVIDENCE_DIR = os.path.join(VERIF, 'evidence', 'extra') if extra else globals()['EVIDENCE_DIR']
+    if os.path.realpath(REPO) != '/repo':
+        # a run against a scratch copy (harness.mutate, the seeded / equivalent intake): its evidence must not
+        # replace the evidence of the runs against /repo itself
+        EVIDENCE_DIR = os.path.join(VERIF, 'evidence', 'scratch-copies')
     os.makedirs(EVIDENCE_DIR, exist_ok=True)
     ev = dict(property_id=pid, tier=tier, seed=seed, level=level, coverage=coverage,
               assumptions=assumptions, wall_s=round(wall, 2), violations=violations)
